@@ -33,6 +33,7 @@ def gen_list(case):
         for r in range(nrep):
             layout['%s|r%d' % (e, r + 1)] = list(gen_idl(rng, rng.randint(10, 30), rng.choice(['contig', 'strided', 'irregular'])))
     base = {n: nprng.normal(size=len(il)) for n, il in layout.items()}
+    grid = {}
     cov = None
     if case.get('cov'):
         cov = pe.cov_Obs([0.3, 0.6], [[0.04, 0.01], [0.01, 0.09]], 'cvX')
@@ -40,15 +41,33 @@ def gen_list(case):
     for i in range(k):
         o = None
         enss = [e for e in case['ens'] if rng.random() < 0.7] or [rng.choice(case['ens'])]
-        if case['mode'] == 'single':
+        if case['mode'] in ('single', 'strides'):
             enss = [case['ens'][0]]
         for e in enss:
             names = [n for n in layout if n.startswith(e + '|')]
-            if case['mode'] == 'single':
-                names = names[:1]
+            if case['mode'] in ('single', 'strides'):
+                names = names[:1] if case['mode'] == 'single' or rng.random() < 0.6 else names[:2]
             samples, idl = [], []
+            obs_stride = rng.choice([1, 2, 3, 4, 5, 6, 7])
             for n in names:
                 il = layout[n]
+                if case['mode'] == 'strides':
+                    # every observable on its own regular sub-grid of the chain: strides that do not divide each
+                    # other and starts that are not aligned, so that the common configurations are found only
+                    # by intersecting by configuration number
+                    if n not in grid:
+                        grid[n] = (rng.randint(1, 9), rng.randint(150, 260))
+                        base[n] = nprng.normal(size=grid[n][1])
+                        layout[n] = list(range(grid[n][0], grid[n][0] + grid[n][1]))
+                    g0, glen = grid[n]
+                    st = obs_stride
+                    a = g0 + rng.randint(0, 12)
+                    b = g0 + glen - rng.randint(0, 12)
+                    il = range(a, b, st)
+                    if rng.random() < 0.3:
+                        il = list(il)
+                        if len(il) > 8 and rng.random() < 0.5:
+                            del il[rng.randrange(1, len(il) - 1)]
                 if case['mode'] == 'nested':
                     il = il[:rng.randint(max(5, len(il) // 2), len(il))]
                 elif case['mode'] == 'overlap':
@@ -114,7 +133,7 @@ def check_case(ctx, case):
             i, j = np.unravel_index(np.argmax(np.abs(cp - cov[np.ix_(perm, perm)])), cp.shape)
             probs.append(('violation', 'not-permutation-equivariant', 'order %r: entry (%d,%d) %r vs %r' % (perm, i, j, cp[i, j], cov[perm[i], perm[j]])))
         # Pearson on common configurations for single chains
-        if case['mode'] == 'single':
+        if case['mode'] in ('single', 'strides'):
             for i, j in itertools.combinations(range(n), 2):
                 a, b = obs[i], obs[j]
                 if len(a.names) == 1 and a.names == b.names and not a.covobs and not b.covobs:
@@ -158,20 +177,30 @@ def check_case(ctx, case):
                 sm = pe.obs._smooth_eigenvalues(cor, E)
                 if abs(np.trace(sm) - np.trace(cor)) > 1e-9 * n:
                     probs.append(('violation', 'smoothing-trace', '%r vs %r' % (np.trace(sm), np.trace(cor))))
-        # sort_corr
-        kl = ['b', 'a', 'c'][:min(3, n)]
-        sizes = [1] * len(kl)
-        sizes[0] = n - (len(kl) - 1)
-        yd = {k: list(range(s)) for k, s in zip(kl, sizes)}
-        srt = pe.obs.sort_corr(cor, kl, yd)
+        # sort_corr: key list, block sizes and the insertion order of the dictionary are independent
+        srng = __import__('random').Random(case['seed'] + 7)
+        nk = srng.randint(1, min(4, n))
+        kl = srng.sample(['b', 'a', 'c', 'ab', 'B'], nk)
+        cuts = sorted(srng.sample(range(1, n), nk - 1)) if nk > 1 else []
+        sizes = [b_ - a_ for a_, b_ in zip([0] + cuts, cuts + [n])]
+        order = list(kl)
+        srng.shuffle(order)
+        size_of = dict(zip(kl, sizes))
+        yd = {k_: list(range(size_of[k_])) for k_ in order}
+        srt = pe.obs.sort_corr(cor, list(kl), yd)
         pos = {}
         ofs = 0
         for k_, s_ in zip(kl, sizes):
             pos[k_] = list(range(ofs, ofs + s_))
             ofs += s_
         mapping = [p for k_ in sorted(kl) for p in pos[k_]]
-        if np.max(np.abs(srt - cor[np.ix_(mapping, mapping)])) > 0:
-            probs.append(('violation', 'sort-corr-not-the-permutation', ''))
+        if srt.shape != cor.shape or np.max(np.abs(srt - cor[np.ix_(mapping, mapping)])) > 0:
+            probs.append(('violation', 'sort-corr-not-the-permutation', 'kl=%r sizes=%r dict order=%r' % (kl, sizes, order)))
+        elif nk == n:
+            # one observable per key: the re-sorted matrix is the correlation matrix of the re-sorted list
+            c2 = pe.covariance([obs[kl.index(k_)] for k_ in sorted(kl)], correlation=True)
+            if np.max(np.abs(c2 - srt)) > 1e-9:
+                probs.append(('violation', 'sort-corr-not-the-covariance-of-the-sorted-list', 'kl=%r' % (kl,)))
     return probs
 
 
@@ -182,7 +211,7 @@ def rng_choice_E(case, n):
 
 def gen_case(ctx):
     rng = ctx.rng
-    mode = rng.choice(['single', 'single', 'same', 'nested', 'overlap'])
+    mode = rng.choice(['single', 'single', 'same', 'nested', 'overlap', 'strides', 'strides'])
     return {'seed': rng.getrandbits(28), 'n': rng.randint(2, 8), 'ens': sorted(rng.sample(['A', 'B', 'C'], rng.choice([1, 2, 3]))), 'mode': mode,
             'cov': rng.random() < 0.3, 'uneven': rng.random() < 0.5, 'identical': rng.random() < 0.3, 'disjoint': rng.random() < 0.3,
             'S': rng.choice([0.0, 1.0, 2.0]), 'sameidl': mode == 'single' and rng.random() < 0.7}
